@@ -461,7 +461,8 @@ class PermutationSymbol(ConstantValue):
 
     def evaluate(self, x, mapping, component, index_values):
         """Evaluate."""
-        return self.__eps(component)
+        # A plain number, like every other evaluate
+        return int(self.__eps(component))
 
     def __getitem__(self, key):
         """Get an item."""
